@@ -1107,7 +1107,14 @@ impl TypedExpr {
                         }
                         circuit.push_panic_if(all_zero, PanicReason::DivByZero, meta);
                         if is_signed(ty) {
-                            circuit.push_signed_division_circuit(&mut x, &mut y).0
+                            let (is_x_negative, is_y_negative) = (x[0], y[0]);
+                            let quotient = circuit.push_signed_division_circuit(&mut x, &mut y).0;
+                            // MIN / -1 is the only division of two negative numbers whose
+                            // (wrapped) quotient is negative
+                            let both_negative = circuit.push_and(is_x_negative, is_y_negative);
+                            let overflow = circuit.push_and(both_negative, quotient[0]);
+                            circuit.push_panic_if(overflow, PanicReason::Overflow, meta);
+                            quotient
                         } else {
                             circuit.push_unsigned_division_circuit(&x, &y).0
                         }
